@@ -124,9 +124,23 @@ cglue_impl_group!(Impl, Gadget, { Store, Clone });
 cglue_impl_group!(Storing, Gadget, { Store });
 cglue_impl_group!(Plain, Gadget, {});
 
-pub struct Token;
-impl Token { fn new() -> Self { TOKENS.fetch_add(1, SeqCst); Token } }
-impl Drop for Token { fn drop(&mut self) { TOKENS.fetch_sub(1, SeqCst); } }
+/// the payload of a context (what a plugin's library handle is).  A PROBED token reports where it is destroyed: 1 = while a generated vtable
+/// wrapper (`cglue_wrapped_*`, code of the module that created the object) is still on the stack, 2 = anywhere else.  The last reference of a context
+/// must never go away inside a wrapper: with a library handle as context that unloads the code that is still running.
+pub struct Token { probe: usize }
+impl Token { fn new() -> Self { TOKENS.fetch_add(1, SeqCst); Token { probe: 0 } } }
+impl Drop for Token {
+    fn drop(&mut self) {
+        TOKENS.fetch_sub(1, SeqCst);
+        if self.probe != 0 {
+            // the backtrace machinery allocates (and caches) on its own account: keep it out of this module's bookkeeping
+            let (a0, f0, b0) = (N_ALLOC.load(SeqCst), N_FREE.load(SeqCst), LIVE_BYTES.load(SeqCst));
+            let inside = { let bt = format!("{}", std::backtrace::Backtrace::force_capture()); bt.contains("cglue_wrapped_") };
+            N_ALLOC.store(a0, SeqCst); N_FREE.store(f0, SeqCst); LIVE_BYTES.store(b0, SeqCst);
+            unsafe { *(self.probe as *mut i64) = if inside { 1 } else { 2 }; }
+        }
+    }
+}
 
 pub type Ctx = CArc<c_void>;
 pub type Obj = CounterArcBox<'static>;
@@ -179,9 +193,11 @@ pub struct ModTable {
     pub make_sbox: extern "C" fn(u64, u64) -> cglue::boxed::CSliceBox<'static, u64>,
     pub sbox_sum: extern "C" fn(&cglue::boxed::CSliceBox<'static, u64>) -> u64,
     pub sbox_drop: extern "C" fn(cglue::boxed::CSliceBox<'static, u64>),
+    pub make_ctx_probed: extern "C" fn(*mut i64) -> Ctx,
 }
 
 extern "C" fn make_ctx() -> Ctx { CArc::<Token>::from(Arc::new(Token::new())).into_opaque() }
+extern "C" fn make_ctx_probed(cell: *mut i64) -> Ctx { let mut t = Token::new(); t.probe = cell as usize; CArc::<Token>::from(Arc::new(t)).into_opaque() }
 extern "C" fn ctx_clone(c: &Ctx) -> Ctx { c.clone() }
 extern "C" fn ctx_drop(c: Ctx) { drop(c) }
 extern "C" fn make_obj(seed: u64, ctx: Ctx) -> Obj { trait_obj!((Impl::new(seed), ctx) as Counter) }
@@ -253,7 +269,7 @@ extern "C" fn sbox_drop(b: cglue::boxed::CSliceBox<'static, u64>) { drop(b) }
 pub static TABLE: ModTable = ModTable {
     make_ctx, ctx_clone, ctx_drop, make_obj, obj_get, obj_add, obj_label_len, obj_into_total, obj_drop, make_grp, grp_get, grp_clone, grp_put, grp_sum,
     grp_visit_local_cb, grp_fill_local_iter, grp_has_store, grp_into_total, grp_drop, make_vec, vec_push, vec_insert, vec_pop, vec_remove, vec_reserve, vec_clone, vec_sum, slice_sum, vec_drop, stats,
-    make_tarc, tarc_clone, tarc_opaque, tarc_drop, make_box, box_get, box_drop, make_sbox, sbox_sum, sbox_drop,
+    make_tarc, tarc_clone, tarc_opaque, tarc_drop, make_box, box_get, box_drop, make_sbox, sbox_sum, sbox_drop, make_ctx_probed,
 };
 
 #[no_mangle]
